@@ -67,12 +67,22 @@ FILES = {
 def tables() -> Dict[str, Optional[Dict[str, List[Any]]]]:
     t: Dict[str, Optional[Dict[str, List[Any]]]] = {name: tab for name, (_, tab, _) in FILES.items()}
     t["missing.csv"] = None
+    # path spellings: what a relative source path names is what the operating system opens for it, seen from the base directory
+    # ("lnk" is a symbolic link to deep/er, so lnk/../t.csv is deep/t.csv, not the decoy ./t.csv)
+    t["./sub/../xy.csv"] = TABLE_XY
+    t["lnk/../t.csv"] = TABLE_XYZ3
     return t
 
 
 def write_all(d: str):
     for name, (fmt, tab, shape) in FILES.items():
         write_table(d, name, fmt, tab, shape)
+    os.makedirs(os.path.join(d, "sub"), exist_ok=True)
+    os.makedirs(os.path.join(d, "deep", "er"), exist_ok=True)
+    if not os.path.lexists(os.path.join(d, "lnk")):
+        os.symlink(os.path.join("deep", "er"), os.path.join(d, "lnk"))
+    write_table(os.path.join(d, "deep"), "t.csv", "csv", TABLE_XYZ3, "rows")
+    write_table(d, "t.csv", "csv", TABLE_XY, "rows")  # the decoy at the lexically collapsed location
 
 
 CTX1 = [
@@ -96,6 +106,8 @@ SRC1_QUICK = [
     {"format": "csv", "path": "xyz.csv", "select": ["z", "x"], "rename": {"z": "k"}},
     {"format": "csv", "path": "xyz.csv", "mode": "combinatorial", "select": ["y", "x"]},          # select order != sorted order
     {"format": "csv", "path": "xy.csv", "mode": "combinatorial", "rename": {"x": "z"}},           # rename changes the alphabetical rank
+    {"format": "csv", "path": "lnk/../t.csv", "select": ["z", "x"]},                              # '..' after a symbolic link
+    {"format": "csv", "path": "./sub/../xy.csv"},
 ]
 SRC1_MORE = [
     {"format": "json", "path": "xy.json"}, {"format": "json", "path": "cols.json"},
@@ -455,3 +467,24 @@ def replay(case) -> List[Violation]:
     if case["kind"] == "dry":
         return dry_run_slice()[1]
     return [v for v in promptness("quick")[1] if v.case.get("label") == case.get("label")]
+
+
+# ---------------------------------------------------------------------------------------------
+# environment grid (mc/envgrid.py): the expansion is a function of the specification and the files it names, in every process
+# (the 'cwd-elsewhere' environment works in a directory with a space and a non-ASCII character in its name, entered through a symlink)
+
+def env_cases(tier: str):
+    from mc import envgrid
+
+    return [{**rs, "max_runs": 1000} for rs in envgrid.pick(specs("quick"), 150 if tier == "quick" else 1500)]
+
+
+def env_observe(case):
+    from mc import envgrid
+
+    d = envgrid.scratch()
+    if not os.path.exists(os.path.join(d, "xy.csv")):
+        write_all(d)
+    got = real_expand(case, d)
+    bad = judge(case, d, tables())
+    return envgrid.norm({"got": got[:2] if got[0] == "ok" else got, "judged": bad[0] if bad else None}, d)
